@@ -21,6 +21,7 @@ import (
 const (
 	MaxArgs       = 256
 	MaxFrameDepth = 1024
+	MaxCallDepth  = 8 * MaxFrameDepth
 	MaxStackDepth = 1024
 	StopSignal    = -1
 	MB            = 1024 * 1024
@@ -46,6 +47,7 @@ type VirtualMachine struct {
 	loadedCode   map[*compiler.Code]*code
 	running      bool
 	concAllowed  bool
+	callDepth    int // nesting of callFunction on the native stack
 	runMutex     sync.Mutex
 	cloneMutex   sync.Mutex
 	tmp          [MaxArgs]object.Object
@@ -871,6 +873,15 @@ func (vm *VirtualMachine) callFunction(
 	if err := checkCallArgs(fn, argc); err != nil {
 		return nil, err
 	}
+
+	// Each call nests on the native stack. Calls made by deferred functions
+	// run after the callee's frame was released, so the frame limit alone
+	// does not bound them (func f() { defer f() }).
+	if vm.callDepth >= MaxCallDepth {
+		return nil, errz.EvalErrorf("eval error: max call depth of %d exceeded", MaxCallDepth)
+	}
+	vm.callDepth++
+	defer func() { vm.callDepth-- }()
 
 	baseFP := vm.fp
 	baseIP := vm.ip
